@@ -74,6 +74,14 @@ def from_find_on(b, op, s_id):
             if nm == "std::option::Option::<T>::unwrap_or":
                 if from_find_on(b, l.data["args"][0], s_id) and from_find_on(b, l.data["args"][1], s_id):
                     return True
+            if nm == "std::bool::<impl bool>::then_some" and from_find_on(b, l.data["args"][1], s_id):
+                return True
+            if nm in ("<std::str::CharIndices<'_> as std::iter::Iterator>::next", "<std::str::CharIndices<'_> as std::iter::DoubleEndedIterator>::next_back"):
+                # the usize of a char_indices() item is the byte offset of a character of that string
+                its = C.trace(b, l.data["args"][0], through_fields=True)
+                if its and all(i.kind == "call" and C.callee_name(i.data) == "std::str::<impl str>::char_indices" and
+                               same(ident(b, i.data["args"][0]), s_id) for i in its):
+                    return True
     return False
 
 
